@@ -280,14 +280,15 @@ def replay_text(ctx, prelude, case):
 
 
 class Capped:
-    """at most `cap` reports per kind reach ctx.report (all are counted)"""
+    """at most `cap` reports per (kind, key prefix) reach ctx.report (all are counted)"""
 
-    def __init__(self, ctx, cap=4):
+    def __init__(self, ctx, cap=2):
         self.ctx, self.cap, self.n = ctx, cap, {}
 
     def report(self, key, kind, name, detail, found_input=True):
-        self.n[kind] = self.n.get(kind, 0) + 1
-        if self.n[kind] <= self.cap or self.ctx.is_known(key):
+        k = (kind, key.split(":")[0])
+        self.n[k] = self.n.get(k, 0) + 1
+        if self.n[k] <= self.cap or self.ctx.is_known(key):
             self.ctx.report(key, kind, name, detail, found_input=found_input)
 
 
